@@ -2905,7 +2905,7 @@ class ContentProtectionSpecificBox(FullBox):
         if rv["version"] > 0:
             kid_count = r.get('I', 'kid_count')
             for i in range(kid_count):
-                rv["key_ids"].append(r.read(16, 'kid'))
+                rv["key_ids"].append(r.get(16, 'kid'))
         data_size = r.get('I', 'data_size')
         if data_size > 0:
             r.read(data_size, "data")
